@@ -9,8 +9,9 @@ period, default breakpoints) and an abstract arithmetic `FOps`.  Every theorem b
 function records, all argument intervals, tolerances, integrality flags and all amounts of fuel.
 
 `Lawful o` is the only assumption on the arithmetic: rounding is monotone and idempotent and a float is a
-double (true of exact arithmetic, proved: `Lawful.exact`; true of IEEE-754 round-to-nearest, assumed for the
-driver instance `ieee` and validated on every run against the hardware).
+double.  It is proved for exact arithmetic (`Lawful.exact`) and for the driver instance `ieee`
+(`PropsIEEE.lean`: `C13_lawful_ieee`, `C13_increasing_ieee`; proof in `Rounding.lean`, which uses Mathlib).
+The chord-error lemma over ℝ is in `Chord.lean`.
 
 The tolerance clause of C13 ("|f − PL| ≤ tol at every real point") is **not** a theorem about this
 algorithm and is not claimed: the real code violates it (see `C13_endpoints_counterexample_skip` for the
